@@ -21,7 +21,10 @@ EXPLANATION = (
     "ProblemParser.parse_grounded_numeric_fluent and TrajectoryParser.parse_grounded_numeric_fluent read the same (= (f a b) v) form; "
     "every return of the trajectory reader must discharge the obligations of its sibling: arity check, type check when the objects "
     "are known, repeated-argument bookkeeping handed to PDDLFunction. C10.thread: in parse_trajectory each component's pre-state is "
-    "the initial state or a copy of the previous post-state, one add_component per operator line, a missing :state raises. "
+    "the initial state or a copy of the previous post-state, one add_component per operator line: the action of the k-th component is "
+    "read from item 1+2k of the token sequence (as the first argument of parse_action_call / parse_joint_action), its post-state from "
+    "item 2+2k (positions affine in the loop counter, through ranges, slices, zip / enumerate / count, induction variables, records), "
+    "a missing :state raises. "
     "C10.nodrop: parse_state rejects unknown components. C10.value: fluent values are float(third item) stored under the fluent's "
     "name. C10.export: the exporter layout (first state, then per step one operator line and the post-state). C10.call: the action "
     "call keeps name and arguments in order; joint actions keep one entry per agent with nop as such."
@@ -220,7 +223,14 @@ def rule_thread(repo: Repo) -> RuleResult:
     ok_post = bool(post_tr) and all("call:copy" not in x for x in post_tr) and \
         not [x for x in p.trace(post) if not parsed(x) and x[0].startswith(("param:", "fresh:", "ext:", "const:"))]
     act_tr = p.trace(act)
-    ok_act = any(any(s_.endswith("parse_action_call") or s_.endswith("parse_joint_action") for s_ in x) for x in act_tr)
+    # what is read from the token sequence for the action enters parse_action_call / parse_joint_action as their first parameter (the call AST)
+    readers = {}
+    for nm in ("parse_action_call", "parse_joint_action"):
+        m_ = repo.find_method("TrajectoryParser", nm)
+        readers[nm] = m_.params[1] if m_ is not None and len(m_.params) > 1 else None
+    from_tokens = [x for x in act_tr if "call:parse" in x and any(s_.endswith(":parse_action_call") or s_.endswith(":parse_joint_action") for s_ in x)]
+    ok_act = bool(from_tokens) and all(any(s_ == f"arg0:{nm}" or (first and s_ == f"kw:{first}:{nm}") for nm, first in readers.items() for s_ in x)
+                                       for x in from_tokens)
     if ok_post and ok_act:
         r.ok({"post_state": "parse_state(item after the operator line)", "action": "parse_action_call | parse_joint_action"})
     else:
